@@ -29,6 +29,9 @@ func run(c *vlib.Ctx) {
 	c.Cases("form", q*4/10, func(k *vlib.Case) { oneTree(k, true, false) })
 	c.Cases("form-clean", q*4/10, func(k *vlib.Case) { oneTree(k, true, true) })
 	c.Cases("mixed", q*2/10, func(k *vlib.Case) { oneTree(k, false, false) })
+	// hand-made minimal trees of the known epoch finding (kept so that every
+	// run shows whether the defect is still there)
+	c.Cases("witness", 2, func(k *vlib.Case) { witness = true; oneTree(k, true, false); witness = false })
 }
 
 // ---------------------------------------------------------------------------
@@ -539,11 +542,21 @@ func (n *node) origMode() os.FileMode {
 	return n.mode
 }
 
+var witness bool // the current case is one of the fixed witness trees
+
 func oneTree(k *vlib.Case, form, clean bool) {
 	r := k.R
 	root := &node{kind: kDir}
 	budget := r.Range(1, 16)
-	genTree(r, root, 1, &budget, form, clean)
+	if witness {
+		if k.Index%2 == 0 {
+			root.children = []*node{{name: "a", kind: kFile, data: []byte("x"), hasStat: true, mode: 0o644}}
+		} else {
+			root.children = []*node{{name: "l", kind: kSymlink, target: "t"}}
+		}
+	} else {
+		genTree(r, root, 1, &budget, form, clean)
+	}
 	rawAbs := r.Chance(1, 6)
 	if rawAbs { // legacy raw header: only used with header-safe abspaths
 		var fix func(n *node)
